@@ -307,6 +307,9 @@ func (c *Ctx) enterBlock(st *State, b *ssa.BasicBlock) bool {
 			}
 		}
 		if al == nil {
+			if st.Disc != nil {
+				return true
+			}
 			panic(VerErr{"back edge without active loop record in " + fr.Fn.String()})
 		}
 		setPhis()
@@ -331,6 +334,7 @@ func (c *Ctx) enterBlock(st *State, b *ssa.BasicBlock) bool {
 	c.havocWrites(st, ws)
 	st.Loops = append(st.Loops, al)
 	st.Record = append(st.Record, ws)
+	st.CutLoops++
 	// assume invariant
 	env := c.specEnvFor(st, fr)
 	env.atLoop = loop
